@@ -556,8 +556,9 @@ impl Array {
                 .map(|(v, &g)| &v.values[0..g])
                 .collect();
 
-            for _ in 0..leading_length {
-                let output_offset = flatten_indices(&indices, &output_dimensions);
+            for n in 0..leading_length {
+                // the leading dimensions are shared by the inputs, and the output
+                let output_offset = n * output_group_length;
                 let output_slice =
                     &mut output_values[output_offset..output_offset + output_group_length];
 
